@@ -260,10 +260,15 @@ func (mc *monitoredConn) notify(state connectivity.State) {
 	}
 	// Inform all multiendpoints.
 	mc.gme.mu.RLock()
+	defer mc.gme.mu.RUnlock()
+	if mc.gme.pools[mc.endpoint] != mc {
+		// This pool was removed. Its endpoint may have a new pool already: a late
+		// report about the old connection must not be taken for the new one's state.
+		return
+	}
 	for _, me := range mc.gme.mes {
 		me.SetEndpointAvailability(mc.endpoint, state == connectivity.Ready)
 	}
-	mc.gme.mu.RUnlock()
 }
 
 func (mc *monitoredConn) monitor(ctx context.Context) {
